@@ -137,6 +137,16 @@ Example C16_reported_load_nonvacuous :
              last (polls st) (0%Z, 0) = (8%Z, 9).
 Proof. eexists. vm_compute. repeat split. Qed.
 
+(* ONE session polls again and again ("no match") while the eight served clients end between its
+   polls: the figure is computed anew for each poll (8 with nine slots in use, then 0 with one) *)
+Example C16_reported_load_repoll :
+  exists st, run V1 (init 0)
+               (w_open 0 ++ w_open 1 ++ w_open 2 ++ w_open 3 ++ w_open 4 ++ w_open 5 ++ w_open 6 ++
+                w_open 7 ++ [LGet; LGetSend; LPollNoMatch] ++
+                concat (map (fun i => [LH i HEnd; LH i HRecv]) (seq 0 8)) ++ [LPollNoMatch; LPollNil]) = Some st /\
+             skipn 8 (polls st) = [(8%Z, 9); (0%Z, 1); (0%Z, 1)].
+Proof. eexists. vm_compute. repeat split. Qed.
+
 (* a tie-free schedule of the pinned code that is not trivial *)
 Example C16_v0_tie_free_nonvacuous :
   tie_free V0 (init 2) ex_all_paths = true /\ run V0 (init 2) ex_all_paths <> None.
